@@ -7,6 +7,7 @@
 import Mappy.Model.Versioning
 import Mappy.Gen.Schemas
 import Mappy.Lemmas.Assoc
+import Mappy.Lemmas.VersionStore
 
 namespace Mappy.Versioning
 
@@ -301,9 +302,14 @@ def CacheInv (fuel : Nat) (files : Store) (hist : List (Str × Option Ver)) (c :
   ∀ k L, cget k c = some L →
     ∃ n ver L0, (n, ver) ∈ hist ∧ cacheKey n ver = k ∧ load files n = .ok L0 ∧ (L = L0 ∨ prune fuel ver L0 = .ok L)
 
+/-- a version the range test is meant for: none, or a number in [0, 1000] (the defaults of the test) -/
+def verOK : Option Ver → Prop
+  | none => True
+  | some vv => inRange vv.milli
+
 /-- pruning twice is pruning once, for the schemas of this folder (see `C09_cache_transparent`) -/
 def PruneIdem (fuel : Nat) (files : Store) : Prop :=
-  ∀ n ver L0 L, load files n = .ok L0 → prune fuel ver L0 = .ok L → prune fuel ver L = .ok L
+  ∀ n ver L0 L, verOK ver → load files n = .ok L0 → prune fuel ver L0 = .ok L → prune fuel ver L = .ok L
 
 /-- two calls use the same cache entry only when they ask for the same schema and version -/
 def KeysInj (hist : List (Str × Option Ver)) : Prop :=
@@ -338,7 +344,7 @@ answers exactly as a fresh Validator does, and re-establishes the invariant: ask
 the answer for another version (or for the same one asked again). -/
 theorem C09_versioned_step (fuel : Nat) (files : Store) (hist : List (Str × Option Ver)) (c : Cache)
     (n : Str) (ver : Option Ver) (hin : (n, ver) ∈ hist) (hk : KeysInj hist) (hidem : PruneIdem fuel files)
-    (hinv : CacheInv fuel files hist c) :
+    (hR : ∀ o ∈ hist, verOK o.2) (hinv : CacheInv fuel files hist c) :
     (vstep fuel files c (.versioned n ver)).1 = freshAnswer fuel files (.versioned n ver) ∧
     CacheInv fuel files hist (vstep fuel files c (.versioned n ver)).2 := by
   rw [fresh_versioned]
@@ -353,7 +359,7 @@ theorem C09_versioned_step (fuel : Nat) (files : Store) (hist : List (Str × Opt
     have hpr : prune fuel ver' L = prune fuel ver' L0 ∨ prune fuel ver' L = .ok L := by
       cases hL with
       | inl h => left; rw [h]
-      | inr h => right; exact hidem _ _ _ _ hload h
+      | inr h => right; exact hidem _ _ _ _ (hR _ hmem) hload h
     cases hp0 : prune fuel ver' L0 with
     | error e =>
       have : prune fuel ver' L = .error e := by
@@ -366,7 +372,7 @@ theorem C09_versioned_step (fuel : Nat) (files : Store) (hist : List (Str × Opt
       have hL' : prune fuel ver' L = .ok L1 := by
         cases hL with
         | inl h => rw [h, hp0]
-        | inr h => rw [hp0] at h; injection h with h; subst h; exact hidem _ _ _ _ hload hp0
+        | inr h => rw [hp0] at h; injection h with h; subst h; exact hidem _ _ _ _ (hR _ hmem) hload hp0
       simp only [hL']
       refine ⟨by first | rfl | trivial, ?_⟩
       intro k X hX
@@ -409,7 +415,7 @@ theorem cacheInv_empty (fuel : Nat) (files : Store) (hist : List (Str × Option 
 /-- **C09_cache_transparent** — for every history of versioned-schema requests on one Validator (any schema names,
 any versions, any order, any repetition), every answer is the answer a fresh Validator gives. -/
 theorem C09_cache_transparent (fuel : Nat) (files : Store) (hidem : PruneIdem fuel files)
-    (hist : List (Str × Option Ver)) (hk : KeysInj hist) :
+    (hist : List (Str × Option Ver)) (hk : KeysInj hist) (hR : ∀ o ∈ hist, verOK o.2) :
     ∀ (ops : List (Str × Option Ver)) (c : Cache), (∀ o ∈ ops, o ∈ hist) → CacheInv fuel files hist c →
       (vrun fuel files c (ops.map fun o => .versioned o.1 o.2)).1 =
         ops.map (fun o => freshAnswer fuel files (.versioned o.1 o.2)) := by
@@ -419,7 +425,7 @@ theorem C09_cache_transparent (fuel : Nat) (files : Store) (hidem : PruneIdem fu
   | cons o r ih =>
     intro c hsub hinv
     obtain ⟨n, ver⟩ := o
-    have hs := C09_versioned_step fuel files hist c n ver (hsub _ (by simp)) hk hidem hinv
+    have hs := C09_versioned_step fuel files hist c n ver (hsub _ (by simp)) hk hidem hR hinv
     simp only [List.map_cons, vrun]
     rw [ih _ (fun o ho => hsub o (by simp [ho])) hs.2, hs.1]
 
@@ -474,6 +480,91 @@ end
 
 /-- every `metadata` entry is a dict and its minVersion / maxVersion are decimal numbers the model reads exactly -/
 theorem C09_files_bounds : ∀ f ∈ Gen.files, boundsOK f.2 = true := by decide +kernel
+
+/-! ### the shared store: the walk is the local filter, and pruning twice is pruning once -/
+
+theorem mem_of_lookup : (σ : Store) → ∀ u x, lookup u σ = some x → (u, x) ∈ σ
+  | [], u, x, h => by simp [lookup] at h
+  | (k, y) :: r, u, x, h => by
+    simp only [lookup] at h
+    split at h
+    · rename_i hk; injection h with h; subst h; subst hk; simp
+    · exact List.mem_cons_of_mem _ (mem_of_lookup r u x h)
+
+/-- a freshly loaded schema folder satisfies the store invariant, with references judged by the folder itself -/
+theorem inv_files (v : Int) (files : Store) (hwf : ∀ f ∈ files, wf f.2 = true) : Inv v (refValid v files) files :=
+  ⟨fun _ => rfl, fun u doc hl => hwf (u, .dict doc) (mem_of_lookup files u _ hl)⟩
+
+/-- **C09_walk_is_local_filter** — whatever state the shared store is in (any earlier requests, any budget), the
+properties dict `get_versioned_properties` returns is the local filter of what it was given: every dict-valued entry
+and every dict alternative is dropped iff out of range — a reference by the range of the document it points to —
+at every depth of the document -/
+theorem C09_walk_is_local_filter (v : Int) (hv : inRange v) (n : Nat) (σ : Store) (d : Fields) (rv : Str → Bool)
+    (h : Inv v rv σ) : (fFields v (follow v n) σ d).1 = lFields v rv d :=
+  (walk_is_local_filter v rv hv n σ d h).1
+
+/-- **C09_prune_idem** — for every schema folder whose documents are well formed (unique keys, flat `metadata`
+entries), every budget, schema name and version: pruning an already pruned load changes neither the returned schema
+nor any document of the shared store.  (This is the premise `PruneIdem` of `C09_cache_transparent`.) -/
+theorem C09_prune_idem (fuel : Nat) (files : Store) (hwf : ∀ f ∈ files, wf f.2 = true) : PruneIdem fuel files := by
+  intro n ver L0 L hver hload hprune
+  unfold load at hload
+  cases hl : lookup (fileOf n) files with
+  | none => simp [hl] at hload
+  | some root =>
+    simp only [hl] at hload
+    injection hload with hload; subst hload
+    have hroot : wf root = true := hwf (fileOf n, root) (mem_of_lookup files _ _ hl)
+    unfold prune at hprune ⊢
+    cases ver with
+    | none => injection hprune with hp; subst hp; rfl
+    | some vv =>
+      simp only at hprune ⊢
+      by_cases hz : vv.milli = 0
+      · simp only [hz, if_true] at hprune ⊢
+      · simp only [hz, if_false] at hprune ⊢
+        cases root with
+        | dict kvs =>
+          simp only at hprune
+          cases hpk : lookup propsKey kvs with
+          | none => simp [hpk] at hprune
+          | some pv =>
+            cases pv with
+            | dict props =>
+              simp only [hpk] at hprune
+              injection hprune with hp; subst hp
+              simp only [lookup_setKey, if_true]
+              have hwk : wfF kvs = true := by simp only [wf, Bool.and_eq_true] at hroot; exact hroot.2
+              have hwp : wf (.dict props) = true := wf_of_lookup kvs hwk propsKey _ hpk
+              have hwpF : wfF props = true := by simp only [wf, Bool.and_eq_true] at hwp; exact hwp.2
+              let rv := refValid vv.milli files
+              have hvr : inRange vv.milli := hver
+              have hI := inv_files vv.milli files hwf
+              obtain ⟨e1, hI1⟩ := walk_is_local_filter vv.milli rv hvr fuel files props hI
+              obtain ⟨hcl, _⟩ := fFields_closed vv.milli rv fuel (follow vv.milli fuel) (follow_spec vv.milli rv hvr fuel) props hwpF files hI
+              have hfix : lFields vv.milli rv (fFields vv.milli (follow vv.milli fuel) files props).1 =
+                  (fFields vv.milli (follow vv.milli fuel) files props).1 := by
+                rw [e1]; exact lFields_idem vv.milli rv hvr props hwpF
+              have hsame := fFields_fixed vv.milli rv (follow vv.milli fuel) _ hI1 _ hfix
+                (fun w hw => follow_fixed vv.milli rv _ hI1 fuel w (hcl w hw))
+              simp only [hsame, setKey_setKey_same]
+            | _ => simp [hpk] at hprune
+        | _ => simp at hprune
+
+/-- every schema file of the folder is well formed: unique keys at every level, every `metadata` entry a flat dict of
+plain values (re-checked against the regenerated files) -/
+theorem C09_files_wf : ∀ f ∈ Gen.files, wf f.2 = true := by decide +kernel
+
+/-- **C09_cache_transparent_files** — for the schema folder of this tree, unconditionally: for EVERY history of
+versioned-schema requests on one Validator object (any schema names, versions, order, repetition, any budget) every
+answer is the answer a fresh Validator gives — asking about one version never changes the answer for another
+version, for the same version asked again, or for the version-less export -/
+theorem C09_cache_transparent_files (fuel : Nat) (hist : List (Str × Option Ver)) (hk : KeysInj hist)
+    (hR : ∀ o ∈ hist, verOK o.2) (ops : List (Str × Option Ver)) (hsub : ∀ o ∈ ops, o ∈ hist) :
+    (vrun fuel Gen.files [] (ops.map fun o => .versioned o.1 o.2)).1 =
+      ops.map (fun o => freshAnswer fuel Gen.files (.versioned o.1 o.2)) :=
+  C09_cache_transparent fuel Gen.files (C09_prune_idem fuel Gen.files C09_files_wf) hist hk hR ops [] hsub
+    (cacheInv_empty fuel Gen.files hist)
 
 /-- non-vacuity: an annotated entry of the real folder, dropped below its minVersion and kept from it on -/
 example : isValid 7500 [(metaKey, .dict [(minKey, .flt s%"7.6")])] = false ∧
